@@ -196,4 +196,46 @@ equal to `x <<< n` (`Iota/Tie/GoFlow.lean`: `shl_eq`).  The translator only emit
 (EXTRACT_SAFE_SHL=1, used by the random differential test of the translator, which shifts by counts up to 2^64). -/
 def shl {w : Nat} (x : BitVec w) (n : Nat) : BitVec w := if w ≤ n then 0#w else x <<< n
 
+/-- the rune Go's decoder yields at the start of the non-empty byte string `p` (U+FFFD = 65533 where `runeWidth p = 1` for a
+byte ≥ 0x80: an ill-formed sequence) -/
+def runeValue (p : List (BitVec 8)) : BitVec 32 :=
+  let b (i : Nat) : Nat := (p.getD i 0).toNat
+  match runeWidth p with
+  | 2 => BitVec.ofNat 32 ((b 0 % 32) * 64 + b 1 % 64)
+  | 3 => BitVec.ofNat 32 (((b 0 % 16) * 64 + b 1 % 64) * 64 + b 2 % 64)
+  | 4 => BitVec.ofNat 32 ((((b 0 % 8) * 64 + b 1 % 64) * 64 + b 2 % 64) * 64 + b 3 % 64)
+  | _ => if b 0 < 128 then BitVec.ofNat 32 (b 0) else 65533#32
+
+/-- the (offset, rune) pairs of `for i, c := range s` -/
+def runesFrom : Nat → Nat → List (BitVec 8) → List (BitVec 64 × BitVec 32)
+  | 0, _, _ => []
+  | _ + 1, _, [] => []
+  | fuel + 1, off, p@(_ :: _) =>
+    (BitVec.ofNat 64 off, runeValue p) :: runesFrom fuel (off + runeWidth p) (p.drop (runeWidth p))
+
+def runes (s : List (BitVec 8)) : List (BitVec 64 × BitVec 32) := runesFrom s.length 0 s
+
+/-! ### error values with an optional position (functions that return both plain errors and `&T{err, offset}` errors) -/
+
+/-- a plain error (`some name`) as an error with optional position -/
+def errOfPlain (e : Option String) : Option (String × Option (BitVec 64)) := e.map fun n => (n, none)
+/-- a positioned error as an error with optional position -/
+def errOfAt (e : Option (String × BitVec 64)) : Option (String × Option (BitVec 64)) := e.map fun p => (p.1, some p.2)
+
+/-- the name of the error variable an error with optional position wraps ("" for nil) -/
+def errName (e : Option (String × Option (BitVec 64))) : String := (e.map (·.1)).getD ""
+/-- its position (0 when there is none) -/
+def errOff (e : Option (String × Option (BitVec 64))) : BitVec 64 := ((e.bind (·.2))).getD 0#64
+
+/-- the same two accessors for a positioned error (functions whose errors are all `&T{err, offset}` values) -/
+def errNameAt (e : Option (String × BitVec 64)) : String := (e.map (·.1)).getD ""
+def errOffAt (e : Option (String × BitVec 64)) : BitVec 64 := (e.map (·.2)).getD 0#64
+
+/-- an error that comes out of a function of ANOTHER package keeps its identity by getting that package's name in front of
+the variable name ("ErrX" of package p is "p.ErrX" for the caller): two packages may both have an `ErrInvalidLength` -/
+def errQual (p : String) (e : Option String) : Option String := e.map fun n => p ++ "." ++ n
+def errQualAt (p : String) (e : Option (String × BitVec 64)) : Option (String × BitVec 64) := e.map fun x => (p ++ "." ++ x.1, x.2)
+def errQualOpt (p : String) (e : Option (String × Option (BitVec 64))) : Option (String × Option (BitVec 64)) :=
+  e.map fun x => (p ++ "." ++ x.1, x.2)
+
 end Iota.Go
